@@ -102,6 +102,11 @@ def run_e2(res, tier):
             if "ok" not in r:
                 bad("helper returned an error: %s (body %s)" % (r, seen[0].get("msg")), "query_result")
                 continue
+            if fam_basic.is_identity(m):
+                res.outcome(("query_identity", r["ok"] == json.loads(tup[0])))
+                if r["ok"] != json.loads(tup[0]):
+                    bad("helper returned %s, the target's handler returned %s" % (json.dumps(r["ok"]), tup[0]), "query_value")
+                continue
             try:
                 got = json.loads(r["ok"]["echo"])
             except Exception:
